@@ -128,7 +128,7 @@ pub fn run_scenario(p: &RunParams) {
             calls,
             late_calls: late,
             epoch: epoch.clone(),
-            fail_on: if p.kind == "fail" && p.fail_block == idx { Some(p.fail_call) } else { None },
+            fail_on: if p.kind.starts_with("fail") && p.fail_block == idx { Some(p.fail_call) } else { None },
         })
     };
     let prev = if p.infinite {
@@ -171,7 +171,7 @@ fn run_and_judge<G: GraphRunner>(
     counters: &[(Arc<AtomicUsize>, Arc<AtomicUsize>)],
 ) {
     let mut canceller = None;
-    if p.kind == "cancel" {
+    if p.kind == "cancel" || p.kind == "failcancel" {
         let token = graph.cancel_token();
         if p.cancel_early {
             token.cancel();
@@ -209,7 +209,7 @@ fn run_and_judge<G: GraphRunner>(
                 }
             }
         }
-        ("fail", Ok(Ok(()))) => {
+        ("fail" | "failcancel", Ok(Ok(()))) => {
             let reached = counters[p.fail_block].0.load(Ordering::SeqCst) >= p.fail_call;
             if reached {
                 violate(
@@ -218,7 +218,7 @@ fn run_and_judge<G: GraphRunner>(
                 );
             }
         }
-        ("fail", Ok(Err(e))) => {
+        ("fail" | "failcancel", Ok(Err(e))) => {
             let s = format!("{e}");
             if !s.contains("injected failure") {
                 violate("wrong-error", format!("run() returned a different error: {s}"));
